@@ -17,7 +17,7 @@ LEVEL = "exploration"
 RUN_WALL_WATCHDOG_S = 300.0
 
 TIERS = {
-    "quick":    {"runs": 30000, "chunk": 12, "wall_cap_s": 80, "size": 0,
+    "quick":    {"runs": 42000, "chunk": 12, "wall_cap_s": 80, "size": 0,
                  "det_sample_min": 12, "det_sample_frac": 0.003, "max_reports": 3, "shrink_candidates": 150},
     "thorough": {"runs": 400000, "chunk": 24, "wall_cap_s": 1700, "size": 1,
                  "det_sample_min": 32, "det_sample_frac": 0.0005, "max_reports": 4, "shrink_candidates": 300,
@@ -100,7 +100,7 @@ def gen_plan(seed, tier):
     k = r.choices([1, 2, 3, 4], weights=[8, 40, 34, 18])[0]
     nmax = {1: 6, 2: 6, 3: 6, 4: 5}[k] + cfg["size"]
     n = r.randint(1, nmax)
-    style = r.choice(["small", "wide", "wide", "narrow", "dupes", "zeros"])
+    style = r.choice(["small", "wide", "wide", "narrow", "dupes", "zeros", "multiples"])
     if style == "small":
         values = [r.randint(1, 15) for _ in range(n)]
     elif style == "wide":
@@ -108,6 +108,9 @@ def gen_plan(seed, tier):
     elif style == "narrow":
         a = r.choice([10, 50, 100])
         values = [r.randint(a, 2 * a) for _ in range(n)]
+    elif style == "multiples":      # a common factor > 1 (a model that rescales values must rescale the caller's constraints too)
+        g = r.choice([2, 3, 5, 10, 25])
+        values = [g * r.randint(1, 200 // g) for _ in range(n)]
     elif style == "dupes":
         v = r.randint(1, 200)
         values = [r.choice([v, v, r.randint(1, 200)]) for _ in range(n)]
